@@ -50,7 +50,20 @@ def _large(draw):
     return gen.mk_case(atoms, conds, qs, large=True)
 
 
+@st.composite
+def _permuted(draw, inner):
+    """the same case with the signature listed in a drawn order (world bit strings then mean
+    something different from one object to the next in the same process)"""
+    c = dict(draw(inner))
+    c["atoms"] = list(draw(st.permutations(c["atoms"])))
+    return c
+
+
 def strategy(tier):
+    return _permuted(_strategy(tier))
+
+
+def _strategy(tier):
     return st.one_of(gen.strong_case(1, 4, 5, unfals=True, qlo=2, qhi=4, consts=True),
                      gen.strong_case(1, 4, 5, unfals=False, qlo=2, qhi=4, consts=False),
                      gen.strong_case(1, 4, 5, unfals=False, qlo=2, qhi=4, consts=False),
